@@ -4,6 +4,8 @@
 cd /verif
 d=seeded/$1; shift
 [ -f $d/patch.diff ] || { echo "no $d/patch.diff"; exit 2; }
+mkdir -p .work
+if [ -z "$VERIF_REPO_LOCKED" ]; then VERIF_REPO_LOCKED=1 exec flock -x .work/repo.lock "$0" "$(basename $d)" "$@"; fi
 git -C /repo diff --quiet || { echo "/repo is dirty"; exit 3; }
 git -C /repo apply $(pwd)/$d/patch.diff || { echo "patch does not apply"; exit 4; }
 trap 'git -C /repo checkout -- . ; git -C /repo clean -fdq' EXIT INT TERM
